@@ -203,7 +203,9 @@ class CDF(keras.layers.Layer):
 
   def call(self, inputs):
     """Standard Keras call() method."""
-    input_dim = int(inputs.shape[-1])
+    # Number of input slots of the layer. Inputs of shape (batch_size, 1) are
+    # broadcast to all of them, so this is not the width of `inputs`.
+    input_dim = int(self.kernel.shape[1])
     # We add new axes to enable broadcasting.
     x = inputs[..., tf.newaxis, tf.newaxis]
 
